@@ -1526,6 +1526,8 @@ def part_d(chk: C.Check, thorough: bool) -> None:
                     for ei, (ename, env, is_async) in enumerate(envs):
                         if not thorough and (ei == 1) != bool(tail):
                             continue  # quick: plain tail on the spy and async environments, failing tail on the strict one
+                        if not thorough and ei == (1 if ci % 2 else 2):
+                            continue  # ... and of the latter two one per case, alternating
                         if thorough and tail and ei == 0:
                             continue  # thorough: plain tail on all three, failing tail on the strict and the async one
                         current[0] = (label, path)
@@ -1631,7 +1633,7 @@ def main(chk: C.Check, build: C.Build) -> None:
                  "sync and async, partials reached through include/render/extends from the cached parent and then fetched directly, "
                  "and one from_string template rendered 3 times (non-trivial = fetches whose name is bound in >= 2 layers); "
                  "D: every registered filter x container path x argument shape, every expression-taking tag, filter pairs, "
-                 "failing tails, 3 environments (one root and one failing tail per case in rotation; quick samples argument shapes, "
+                 "failing tails, 3 environments (one root and one failing tail per case in rotation; quick renders each case on the spied default environment and on one of the async / strict+failing-tail ones alternately, samples argument shapes, "
                  "paths of non-array filters, one of four template forms, 6 of 24 for-loop option sets and 2 paths per filter pair). "
                  "distinct_nontrivial = distinct A (subset, shape) pairs whose name is bound in >= 2 layers + distinct B sequences in which "
                  "some lookup found its name in >= 2 maps of the real chain (counted on the real objects at lookup time) + distinct D "
